@@ -471,3 +471,63 @@ def judge_rotation_searches(db, funcs, rep, rule="R-LOOP-ROTATE"):
                       "value none of whose rotations satisfies the exit (an immediate that is not encodable) the compile never returns" %
                       (f.name, sorted(searched)[0], unparse(cond)[:60]), line=lp.line)
     return n
+
+
+# ---------------------------------------------------------------------------
+# shift count as induction variable
+# ---------------------------------------------------------------------------
+def judge_shift_searches(db, funcs, rep, rule="R-LOOP-SHIFT"):
+    """`while ((1 << s) < x) s++;` looks for the power of two that reaches x.  For x > 2^30 no int power of two does: at s = 31 the
+    shift overflows (undefined; on x86 the count wraps at 32), and the loop never ends.  A loop whose condition shifts by its own
+    induction variable is bounded for every x only if the same condition (or an exit in the body) also bounds the variable
+    (`s < 31`), or the other side is a constant."""
+    n = 0
+    for f in funcs:
+        if f.body is None:
+            continue
+        for lp in f.walk():
+            if lp.k not in LOOPS:
+                continue
+            init, cond, inc, body = loop_parts(lp)
+            if cond is None:
+                continue
+            moved = set()
+            for part in (inc, body):
+                if part is None:
+                    continue
+                for a in part.walk():
+                    if (a.k == "UnaryOperator" and a.op in ("++", "--")) or a.k == "CompoundAssignOperator":
+                        r = _root(a.c[0])
+                        if r:
+                            moved.add(r)
+            hits = []
+            for x in cond.walk():
+                if x.k == "BinaryOperator" and x.op == "<<":
+                    cnt = strip_casts(x.c[1])
+                    while cnt is not None and cnt.k == "ParenExpr":
+                        cnt = strip_casts(cnt.c[0])
+                    if cnt is not None and cnt.k == "DeclRefExpr" and cnt.name in moved:
+                        hits.append((x, cnt.name))
+            for x, iv in hits:
+                n += 1
+                rep.saw(f)
+                # the comparison the shift takes part in: is its other side a constant?
+                p = x.parent
+                while p is not None and p.k in ("ParenExpr", "ImplicitCastExpr", "CStyleCastExpr"):
+                    p = p.parent
+                const_other = False
+                if p is not None and p.k == "BinaryOperator" and p.op in ("<", "<=", ">", ">=", "!=", "=="):
+                    other = [c_ for c_ in p.c if not any(y.id == x.id for y in c_.walk())]
+                    const_other = bool(other) and strip_casts(other[0]) is not None and strip_casts(other[0]).v is not None
+                bounded = const_other or (body is not None and has_exit(body, lp))
+                for y in cond.walk():
+                    if y.k == "BinaryOperator" and y.op in ("<", "<=", ">", ">=", "!=") and not any(z.k == "BinaryOperator" and z.op == "<<" for z in y.walk()):
+                        l, r = strip_casts(y.c[0]), strip_casts(y.c[1])
+                        if (l is not None and l.k == "DeclRefExpr" and l.name == iv and r is not None and r.v is not None) or \
+                                (r is not None and r.k == "DeclRefExpr" and r.name == iv and l is not None and l.v is not None):
+                            bounded = True
+                rep.check(bounded, rule, where(f), "%s:%s" % (f.name, unparse(cond)[:40]), "a loop that shifts by its induction variable bounds that variable",
+                          "%s shifts by `%s`, which the loop itself advances, and compares the result with a value it does not control (`%s`): beyond 2^30 no "
+                          "int power of two reaches it, the shift count runs past 31 and the loop does not end - a variable size above 2^30 hangs the compile" %
+                          (f.name, iv, unparse(cond)[:60]), line=lp.line)
+    return n
